@@ -67,7 +67,7 @@ CLAIMED = {
    note="Trusted: hook placement (scheduling points = accesses to the slot, Once entry/exit, constructor entry/exit); sequential consistency between points; std::sync::Once modelled as blocking while another thread is inside the closure. Weak-memory effects beyond the Once edges and > 3 threads are outside the bound."),
 }
 
-SEQ = " Operation sequences: ALL ordered pairs of a call alphabet built from one small value set used in every argument role (and all ordered triples / quadruples of sub-alphabets) are executed as one history on one thread; every result must be bit-identical to the same call made alone in a fresh thread (history independence: memos, caches, scratch state). A final free-running 8-thread stress over the same alphabet is a labelled, non-exhaustive corroboration only."
+SEQ = " Operation sequences: ALL ordered pairs of a call alphabet built from one small value set used in every argument role (and all ordered triples / quadruples of sub-alphabets) are executed as one history on one thread; every result must be bit-identical to the same call made alone in a fresh thread (history independence: memos, caches, scratch state). A final free-running 8-thread stress over the same alphabet, and a race-detector pass (the entry points of the property run by two threads under miri's happens-before data-race detection, every concurrent result compared with the sequential one), are labelled, non-exhaustive corroboration only. If the engine is killed (failed allocation, memory or time cap), ./check isolates the case in flight and reports it, with its replay file, when it violates the property or does not return alone."
 ADDED = {
  "C01": " Later additions: Fibonacci-lattice generic positions; exponent sweep around the critical latitudes / meridians; every half turn of longitude in the stated domain; integer degrees; float literals of the current sources as coordinates and centres of cells whose (i, j) are integer literals of the sources." + SEQ,
  "C02": " Later additions: exponent sweep, every half turn of longitude, integer degrees, source-literal positions (as C01)." + SEQ,
@@ -88,7 +88,7 @@ ADDED = {
  "C17": " Later additions: exponent sweep (sphere and plane), integer degrees, float literals of the sources." + SEQ,
  "C18": " Later additions: all ordered pairs of coordinates taken from the integer literals of the current sources; every pair of values of a 12-bit window at the same offset in i and j; periodic coordinates (every v | v<<16, every 1/2/4/8-bit pattern)." + SEQ,
  "C19": " Later additions: weighted mean checked for every position (grid coordinates from the reference projection), carry-chain cells." + SEQ,
- "C20": " Later additions: mutual-exclusion probe (a thread held inside the constructor / at the end of the initialisation closure, a free-running second caller must block); a SAMPLED first-use stress in fresh processes (15 free-running threads on one table at a time; pairs of threads making the first use of the Layer and of the cell-size constants of one depth with a stagger, watchdog against calls that never return; labelled non-exhaustive: corroboration for hook-free windows only).",
+ "C20": " Later additions: mutual-exclusion probe (a thread held inside the constructor / at the end of the initialisation closure, a free-running second caller must block); a SAMPLED first-use stress in fresh processes (15 free-running threads on one table at a time; pairs of threads making the first use of the Layer and of the cell-size constants of one depth with a stagger, watchdog against calls that never return; labelled non-exhaustive: corroboration for hook-free windows only); a race-detector pass: 10 first-use scenarios (engine/c20miri) under miri's happens-before data-race detection, 3 / 24 scheduler seeds each, which reports an unsynchronised access in a hook-free window in every execution that performs it.",
 }
 
 for k, v in ADDED.items():
